@@ -1537,3 +1537,9 @@ Proof.
     try apply api_browse_total; try apply api_resolve_hostname_total.
 Qed.
 
+
+(* a chain of three labels ending in backslashes: every adjacent pair fits into 63 bytes, the
+   re-split of the whole name does not; the fit test looks at the whole name *)
+Lemma read_name_fit_rejects_chain :
+  read_name_fit [rep 97 29 ++ [BSL]; rep 98 29 ++ [BSL]; rep 99 30; [108;111;99;97;108]] = Err.
+Proof. vm_compute. reflexivity. Qed.
